@@ -35,8 +35,13 @@ var (
 // and values from the pool whose members are prefixes / concatenations of one another.
 // variedUnwrap lets unwrap values vary between records of one template.
 func GenMetricData(t *rapid.T, maxRecs int, ambiguousLabels bool, variedUnwrap bool, distinctTS bool) MetricData {
+	return GenMetricDataN(t, maxRecs, ambiguousLabels, variedUnwrap, distinctTS, 1, 4)
+}
+
+// GenMetricDataN is GenMetricData with the number of series templates in [minT, maxT].
+func GenMetricDataN(t *rapid.T, maxRecs int, ambiguousLabels bool, variedUnwrap bool, distinctTS bool, minT, maxT int) MetricData {
 	var d MetricData
-	nTemplates := rapid.IntRange(1, 4).Draw(t, "templates")
+	nTemplates := rapid.IntRange(minT, maxT).Draw(t, "templates")
 	names := []string{"app", "env", "host"}
 	vals := [][]string{{"web", "db"}, {"prod", "dev"}, {"h1", "h2", "h3"}}
 	if ambiguousLabels {
@@ -63,7 +68,7 @@ func GenMetricData(t *rapid.T, maxRecs int, ambiguousLabels bool, variedUnwrap b
 			tp.labels[names[j]] = rapid.SampledFrom(vals[j]).Draw(t, "labelval")
 		}
 		tp.labels["id"] = "t" + strconv.Itoa(i)
-		if rapid.IntRange(0, 2).Draw(t, "share-id") == 0 {
+		if rapid.IntRange(0, 2).Draw(t, "share-id") == 0 && maxT <= 4 {
 			tp.labels["id"] = "t0" // templates may coincide completely
 		}
 		tp.line = rapid.SampledFrom(lines).Draw(t, "line")
@@ -145,6 +150,9 @@ type RangeOpts struct {
 	NoStages  bool
 	Grouping  bool // allow by/without where the grammar allows it
 	KeepStage bool // allow "| keep ..." / "| drop msg" stages that merge series
+	// Wide mostly draws a range that covers all data and no selector matcher, so that most
+	// series are present at every step.
+	Wide bool
 }
 
 // CountFuncs are the functions that need no unwrap.
@@ -177,6 +185,10 @@ func GenRange(t *rapid.T, d MetricData, o RangeOpts, unwrap bool) *gen.Metric {
 		}
 	}
 	r := rapid.SampledFrom(rangeTexts).Draw(t, "range")
+	wide := o.Wide && rapid.IntRange(0, 3).Draw(t, "wide") != 0
+	if wide {
+		r = rangeTexts[5] // 1m
+	}
 	m.RangeNs, m.RangeText = r.ns, r.text
 	if !o.NoOffset && rapid.IntRange(0, 2).Draw(t, "offset") == 0 {
 		off := rapid.SampledFrom([]struct {
@@ -186,7 +198,7 @@ func GenRange(t *rapid.T, d MetricData, o RangeOpts, unwrap bool) *gen.Metric {
 		m.HasOffset, m.OffsetNs, m.OffsetText = true, off.ns, off.text
 	}
 	// selector
-	if len(d.GroupLabels) > 0 && rapid.IntRange(0, 2).Draw(t, "selmatcher") == 0 {
+	if len(d.GroupLabels) > 0 && !wide && rapid.IntRange(0, 2).Draw(t, "selmatcher") == 0 {
 		l := rapid.SampledFrom(d.GroupLabels).Draw(t, "sellabel")
 		vals := map[string]bool{}
 		for _, r := range d.Recs {
@@ -202,7 +214,7 @@ func GenRange(t *rapid.T, d MetricData, o RangeOpts, unwrap bool) *gen.Metric {
 		sortStrings(pool)
 		m.Log.Sel = append(m.Log.Sel, gen.Matcher{Label: l, Op: rapid.SampledFrom([]string{"=", "!=", "=~"}).Draw(t, "selop"), Value: genBS(rapid.SampledFrom(pool).Draw(t, "selval"))})
 	}
-	if !o.NoStages {
+	if !o.NoStages && !wide {
 		switch rapid.IntRange(0, 5).Draw(t, "stage") {
 		case 0:
 			m.Log.Stages = append(m.Log.Stages, gen.Stage{Kind: "linefilter", Op: rapid.SampledFrom([]string{"|=", "!=", "|~"}).Draw(t, "lfop"), Value: genBS(rapid.SampledFrom([]string{"GET", "err", "/", ""}).Draw(t, "lfval"))})
